@@ -18,17 +18,21 @@ import (
 type c09Case struct {
 	Client  bool          `json:"client"`
 	Deflate bool          `json:"deflate"`
-	State   string        `json:"state"`           // idle | reader-blocked | half-read | closeread | writer-blocked | writer-open | ping-pending
+	State   string        `json:"state"`           // idle | reader-blocked | half-read | closeread | writer-blocked | writer-open | ping-pending | write-fails | stream-write-fails
 	Adv     string        `json:"adv"`             // see c09Advs
 	Frame   string        `json:"frame,omitempty"` // for stall: data7 | data16 | data64 | ping | close | cont
 	K       int           `json:"k,omitempty"`     // bytes of the frame sent before stalling
 	Delay   time.Duration `json:"delay,omitempty"`
-	Op      string        `json:"op"`   // Close | CloseNow | closeread-data
+	Op      string        `json:"op"`   // Close | CloseNow | closeread-data | Close-badcode | Close-longreason
 	When    string        `json:"when"` // adversary acts "before" or "after" the local close call starts
 }
 
 var c09States = []string{"idle", "reader-blocked", "half-read", "closeread", "writer-blocked", "writer-open", "ping-pending"}
-var c09Advs = []string{"silent-reading", "silent-not-reading", "stall", "flood-frames", "flood-fragments", "flood-payload", "half-close", "echo-delay", "violation"}
+var c09Advs = []string{"silent-reading", "silent-not-reading", "stall", "flood-frames", "flood-fragments", "flood-payload", "half-close", "echo-delay", "violation", "hangup"}
+
+// states that only make sense once the adversary has acted: a write that then fails in the transport
+var c09LateStates = []string{"write-fails", "stream-write-fails"}
+var c09BadCloseOps = []string{"Close-badcode", "Close-longreason"}
 var c09StallFrames = []string{"data7", "data16", "data64", "ping", "close", "cont"}
 
 func c09StallBytes(frame string, libIsClient bool) []byte {
@@ -215,6 +219,8 @@ func runC09(t fataler, c c09Case) (string, c09Result) {
 			})
 		case "half-close":
 			lc.End.CloseWrite(nil)
+		case "hangup":
+			lc.End.Close() // the peer is gone: reads end, writes fail in the transport
 		case "violation":
 			p.send(ref.Frame{Fin: true, Opcode: 0x7, Payload: []byte("reserved opcode")})
 		}
@@ -222,11 +228,29 @@ func runC09(t fataler, c c09Case) (string, c09Result) {
 	switch c.Adv {
 	case "silent-reading", "silent-not-reading", "echo-delay":
 		res.Withheld = true
-	case "flood-frames", "flood-fragments", "flood-payload", "half-close", "violation":
+	case "flood-frames", "flood-fragments", "flood-payload", "half-close", "violation", "hangup":
 		res.Withheld = true
 	}
 	if c.When == "before" {
 		adversary()
+		synctest.Wait()
+	}
+	switch c.State {
+	case "write-fails":
+		blockedCalls = append(blockedCalls, blocked{"Write", e.Call(func() {
+			conn.Write(ctx, websocket.MessageBinary, expand(ckRandom, 6, 9000))
+		})})
+		synctest.Wait()
+	case "stream-write-fails":
+		blockedCalls = append(blockedCalls, blocked{"Writer/Write/Close", e.Call(func() {
+			w, err := conn.Writer(ctx, websocket.MessageText)
+			if err != nil {
+				return
+			}
+			w.Write(expand(ckText, 8, 5000))
+			w.Write(expand(ckText, 9, 5000))
+			w.Close()
+		})})
 		synctest.Wait()
 	}
 
@@ -238,6 +262,11 @@ func runC09(t fataler, c c09Case) (string, c09Result) {
 		opDone = e.Call(func() { conn.Close(websocket.StatusNormalClosure, "bounded?") })
 	case "CloseNow":
 		opDone = e.Call(func() { conn.CloseNow() })
+	case "Close-badcode":
+		// an argument that cannot be put on the wire is an error, but the call still closes the connection
+		opDone = e.Call(func() { conn.Close(websocket.StatusCode(1006), "not sendable") })
+	case "Close-longreason":
+		opDone = e.Call(func() { conn.Close(websocket.StatusInternalError, string(expand(ckText, 10, 124))) })
 	case "closeread-data":
 		// the peer sends a data message: CloseRead must close the connection itself
 		p.send(ref.Frame{Fin: true, Opcode: ref.OpText, Payload: []byte("unexpected data")})
@@ -322,7 +351,7 @@ func c09Key(c c09Case) string {
 
 func TestC09(t *testing.T) {
 	rec := evid.For("C09")
-	rec.Rule = "enumerated matrix in virtual time: local state {idle, reader blocked, message half read, CloseRead active, writer blocked on a zero window, Writer open mid-message, Ping pending} x scripted adversary {silent but reading, never reading, stall after k bytes of a frame for EVERY k (7/16/64-bit data frames, Ping, Close, non-final fragment), endless data frames, one endless payload, half-close, echo after 0/1/4.9/5.1/20 s, protocol violation} acting before or after the call x role x {Close, CloseNow, CloseRead + incoming data message}; then rapid-drawn combinations. Bounds asserted on the fake clock: Close <= 11 s, CloseNow <= 1 s, blocked calls and the CloseRead context <= 1 s after the library closed the transport. Non-trivial: the adversary withheld something the library was waiting for. distinct = (role, state, adversary, frame kind, k class, delay, op, timing)."
+	rec.Rule = "enumerated matrix in virtual time: local state {idle, reader blocked, message half read, CloseRead active, writer blocked on a zero window, Writer open mid-message, Ping pending} [+ a Write / a streamed message started after the adversary acted] x scripted adversary {gone (transport closed: writes fail), silent but reading, never reading, stall after k bytes of a frame for EVERY k (7/16/64-bit data frames, Ping, Close, non-final fragment), endless data frames, one endless payload, half-close, echo after 0/1/4.9/5.1/20 s, protocol violation} acting before or after the call x role x {Close, CloseNow, CloseRead + incoming data message, Close with an unsendable code, Close with a 124-byte reason}; then rapid-drawn combinations. Bounds asserted on the fake clock: Close <= 11 s, CloseNow <= 1 s, blocked calls and the CloseRead context <= 1 s after the library closed the transport. Non-trivial: the adversary withheld something the library was waiting for. distinct = (role, state, adversary, frame kind, k class, delay, op, timing)."
 	var rc c09Case
 	if replayCase(t, &rc) {
 		var msg string
@@ -396,6 +425,25 @@ func TestC09(t *testing.T) {
 			}
 		}
 	}
+	for _, client := range []bool{false, true} {
+		for _, st := range c09LateStates {
+			for _, op := range []string{"Close", "CloseNow"} {
+				for _, adv := range []string{"hangup", "half-close", "silent-not-reading"} {
+					one(c09Case{Client: client, State: st, Adv: adv, Op: op, When: "before"})
+					one(c09Case{Client: client, Deflate: true, State: st, Adv: adv, Op: op, When: "before"})
+				}
+			}
+		}
+		for _, st := range c09States {
+			for _, op := range c09BadCloseOps {
+				for _, when := range []string{"before", "after"} {
+					one(c09Case{Client: client, State: st, Adv: "silent-reading", Op: op, When: when})
+					one(c09Case{Client: client, State: st, Adv: "hangup", Op: op, When: when})
+					one(c09Case{Client: client, State: st, Adv: "stall", Frame: "data7", K: 9, Op: op, When: when})
+				}
+			}
+		}
+	}
 	rec.Exhaustive("state x adversary (every stall offset k of short frames) x role x operation x timing", true)
 }
 
@@ -407,10 +455,16 @@ func TestC09Mixed(t *testing.T) {
 		c := c09Case{
 			Client:  rapid.Bool().Draw(rt, "client"),
 			Deflate: rapid.Bool().Draw(rt, "deflate"),
-			State:   rapid.SampledFrom(c09States).Draw(rt, "state"),
+			State:   rapid.SampledFrom(append(append([]string(nil), c09States...), c09LateStates...)).Draw(rt, "state"),
 			Adv:     rapid.SampledFrom(c09Advs).Draw(rt, "adv"),
-			Op:      rapid.SampledFrom([]string{"Close", "Close", "CloseNow", "closeread-data"}).Draw(rt, "op"),
+			Op:      rapid.SampledFrom([]string{"Close", "Close", "Close", "CloseNow", "CloseNow", "closeread-data", "Close-badcode", "Close-longreason"}).Draw(rt, "op"),
 			When:    rapid.SampledFrom([]string{"before", "after"}).Draw(rt, "when"),
+		}
+		if c.State == "write-fails" || c.State == "stream-write-fails" {
+			c.When = "before"
+			if c.Op == "closeread-data" {
+				c.Op = "Close"
+			}
 		}
 		if c.Op == "closeread-data" {
 			if c.State == "reader-blocked" || c.State == "half-read" || c.State == "ping-pending" {
